@@ -32,6 +32,13 @@ class FakeUUID(object):
         return "fresh-id-{0}".format(self.calls)
 
 
+class PlainBean(object):
+    """a value jsonclass.dump turns into a dictionary, but not a parameter container"""
+
+    def __init__(self, a):
+        self.a = a
+
+
 def make_config(shape):
     kind = shape["cfg"]
     if kind == "default":
@@ -67,6 +74,14 @@ def build_params(shape, L):
         return L["p1"]
     if kind == "str":
         return L["p2"]
+    if kind == "set":
+        return {1, "a"}
+    if kind == "fset":
+        return frozenset((1, "a"))
+    if kind == "bean":
+        return PlainBean(L["p1"])
+    if kind == "object":
+        return object()
     if kind == "fault":
         return Fault(L["fcode"], L["fmsg"], data=None)
     if kind == "fault_data":
